@@ -7,7 +7,7 @@ import re
 from typing import Dict, List, Set
 
 from ..core import rule
-from ..dataflow import DefUse
+from ..dataflow import DefUse, origins
 from ..program import AnalysisError, dotted, src
 from ..core import walk_local  # inline-aware
 from .common import handler_catching, handler_body_nodes, where
@@ -221,11 +221,14 @@ def x4(ctx):
     for n, c in adds + gets:
         a0, a1 = (c.args + [None, None])[:2]
         ok = False
-        if isinstance(a0, ast.Name) and isinstance(a1, ast.Name):
-            d0, d1 = du.reaching(n, a0.id), du.reaching(n, a1.id)
-            ok = len(d0) == 1 and len(d1) == 1 and d0[0].kind == "for" and d0[0].node is d1[0].node \
-                and isinstance(d0[0].value, ast.Call) and dotted(d0[0].value.func) == "self.iter_with_etag" \
-                and d0[0].index == (0,) and d1[0].index == (2,)
+        if a0 is not None and a1 is not None:
+            # elements 0 and 2 of one and the same item of self.iter_with_etag() - bound by the loop header, by a later
+            # unpacking of the item, or read from the record the listing yields
+            o0, o1 = origins(du, n, a0), origins(du, n, a1)
+            def listed(os_, comp):
+                return bool(os_) and all(o.kind == "elem" and tuple(o.path) == (comp,) and isinstance(o.leaf, ast.Call)
+                                         and dotted(o.leaf.func) == "self.iter_with_etag" for o in os_)
+            ok = listed(o0, 0) and listed(o1, 2) and len({id(o.node) for o in o0 + o1}) == 1
         obs.append(ctx.ob(ok, fi.qualname, where(fi, n), "%s keyed by the listed (name, etag)" % c.func.attr,
                           "name and etag are elements 0 and 2 of one iter_with_etag() tuple",
                           "`%s` is not keyed by the name/etag pair of the current listing tuple: a write could leave a stale index entry" % src(c)))
